@@ -7,6 +7,7 @@ import (
 	"errors"
 	"io"
 	"math"
+	"reflect"
 	"sync"
 
 	jsonrpc "github.com/filecoin-project/go-jsonrpc"
@@ -289,6 +290,19 @@ func symOuter(tag string) Outer {
 		P: symInner(tag + "_p"), L: symList(tag + "_l"), Flag: verif.Bool(tag + "_flag")}
 }
 
+func decoyClient(srv *jsonrpc.RPCServer) {
+	var d struct{ Void func() }
+	enc := func(reflect.Value) (reflect.Value, error) { return reflect.ValueOf("decoy"), nil }
+	dc, err := jsonrpc.NewCustomClient("Decoy", []interface{}{&d}, hx.CustomDo(srv),
+		jsonrpc.WithParamEncoder(new(int64), enc), jsonrpc.WithParamEncoder(new(string), enc),
+		jsonrpc.WithParamEncoder(new(Outer), enc), jsonrpc.WithParamEncoder(new(*Inner), enc),
+		jsonrpc.WithParamEncoder(new([]int64), enc), jsonrpc.WithParamEncoder(new(bool), enc),
+		jsonrpc.WithClientHandlerAlias("NS.Void", "Decoy.Void"))
+	if err == nil {
+		dc()
+	}
+}
+
 func setup(h *H) (*C, func()) {
 	f := formatter(verif.Choice("formatter", verif.Bound("formatters", 2)))
 	srv := jsonrpc.NewServer(f.srv)
@@ -301,6 +315,9 @@ func setup(h *H) (*C, func()) {
 		}
 		srv.AliasMethod(f.name("NS", "List"), f.name("NS", "Bytes"))
 	}
+	// an earlier, unrelated client with options of its own (parameter encoders for the types
+	// the shapes use, a handler alias): clients do not share option state, so it changes nothing
+	decoyClient(srv)
 	var c C
 	var closer jsonrpc.ClientCloser
 	var err error
